@@ -114,6 +114,23 @@ def calls_b(x: fp.Real, n: fp.Real) -> fp.Real:
     return u - 55
 
 
+@fp.fpy
+def calls_c(x: fp.Real, y: fp.Real) -> fp.Real:
+    a = x + 131
+    if leaf(a) > 132:
+        a = a + 133
+    for e in [leaf(x), mid(y)]:
+        a = a + e * 134
+    if mid(a) > 135:
+        a = leaf(a) - 136
+    else:
+        a = a + 137
+        if leaf(y) > a:
+            a = a * 138
+    b = a - 139
+    return b
+
+
 @fp.fpy(ctx=fp.REAL)
 def rounds_a(x: fp.Real, y: fp.Real, z: fp.Real) -> fp.Real:
     a = x + 61
@@ -191,7 +208,7 @@ def _pin(func, n):
 ir_a = _pin(_ir_a, 3)     # pinned formats: what `insert_round` needs to find its sites
 
 
-ROOTS = ['loops_a', 'loops_b', 'odd_trip', 'nest_trip', 'calls_a', 'calls_b', 'rounds_a', 'rounds_b', 'mixed']
+ROOTS = ['loops_a', 'loops_b', 'odd_trip', 'nest_trip', 'calls_a', 'calls_b', 'calls_c', 'rounds_a', 'rounds_b', 'mixed']
 
 
 # ---------------------------------------------------------------------------
